@@ -504,7 +504,7 @@ func pureExternal(fn *ssa.Function) bool {
 		return false
 	}
 	switch fn.Pkg.Pkg.Path() {
-	case "strings", "strconv", "unicode", "unicode/utf8", "math", "math/bits", "fmt", "bytes", "errors", "time", "sort", "slices", "path/filepath", "regexp", "os", "reflect", "math/big":
+	case "strings", "strconv", "unicode", "unicode/utf8", "math", "math/bits", "fmt", "bytes", "errors", "time", "sort", "slices", "path/filepath", "regexp", "os", "reflect", "math/big", "sync", "sync/atomic":
 		return true
 	}
 	return false
